@@ -1116,10 +1116,16 @@ spdiag(PyTypeObject *type, PyObject *args, PyObject *kwds)
     if (!ret) return NULL;
     SP_COL(ret)[0] = 0;
 
+    int_t j = 0;
     for (k=0; k<SP_NNZ(diag); k++) {
 
-      SP_COL(ret)[SP_ROW(diag)[k]+1] = 1;
-      SP_ROW(ret)[k] = SP_ROW(diag)[k];
+      /* position on the diagonal: the row index in a column vector, the
+         column index in a row vector */
+      while (SP_COL(diag)[j+1] <= k) j++;
+      int_t pos = (SP_NROWS(diag) == 1 ? j : SP_ROW(diag)[k]);
+
+      SP_COL(ret)[pos+1] = 1;
+      SP_ROW(ret)[k] = pos;
       if (SP_ID(diag) == DOUBLE)
         SP_VALD(ret)[k] = SP_VALD(diag)[k];
       else
